@@ -25,12 +25,17 @@ from __future__ import annotations
 
 import json
 import math
+import os
 import traceback
 import warnings
 from concurrent.futures import ProcessPoolExecutor
 from fractions import Fraction
 
-import numpy as np
+# one BLAS thread per process: the check runs many processes side by side
+for _v in ("OMP_NUM_THREADS", "OPENBLAS_NUM_THREADS", "MKL_NUM_THREADS"):
+    os.environ.setdefault(_v, "1")
+
+import numpy as np  # noqa: E402
 
 from lib import common as C
 from lib import interval as I
@@ -109,8 +114,13 @@ def ei_goal(kind, gid, mu, sig, ymax, val, dmu=None, dvar=None):
     phi, Phi, h = kernel_py(zf)
     prec, relw = tactic_for(zf, kind)
     zl = C.cR(z)
-    pre = (f"rewrite (zscore_literal _ _ _ {zl}); [ | interval | field]. "
-           f"unfold ei_kernel, Phi, phi. integral with (i_prec {prec}, i_relwidth {relw}, i_degree 20)")
+    if z == 0:
+        # equal integration bounds: use the lemma Phi 0 = 1/2 instead of the integrator
+        pre = (f"rewrite (zscore_literal _ _ _ {zl}); [ | interval | field]. "
+               f"unfold ei_kernel. rewrite Phi_0. unfold phi. interval with (i_prec {prec}, i_degree 20)")
+    else:
+        pre = (f"rewrite (zscore_literal _ _ _ {zl}); [ | interval | field]. "
+               f"unfold ei_kernel, Phi, phi. integral with (i_prec {prec}, i_relwidth {relw}, i_degree 20)")
     args = f"{C.cR(fm)} {C.cR(fs)} {C.cR(fy)}"
     v = C.frac(val)
     if kind == "call":
@@ -164,7 +174,7 @@ def acquisition_points(rep, tier):
     _, _, EI, UCB, MV = impl()
     r = C.rng_for(PROP, "acq")
     recs, goals = [], []
-    n_gp = 2 if tier == "quick" else 6
+    n_gp = 1 if tier == "quick" else 6
     zi = 0
     for d in (1, 2, 3):
         for g in range(n_gp):
@@ -176,7 +186,7 @@ def acquisition_points(rep, tier):
                 a.update_gp(gp)
             natural_max = float(ei.mu_max)
             n_q = (len(Z_TARGETS) // (3 * n_gp) + 1) if tier == "quick" else len(Z_TARGETS)
-            for q in range(n_q + 2):
+            for q in range(n_q + (1 if tier == "quick" else 4)):
                 x = np.array([r.uniform(-2.5, 2.5) for _ in range(d)])
                 mu_a, sig_a = gp(x)
                 mu, sig = float(mu_a[0]), float(sig_a[0])
@@ -338,8 +348,10 @@ def acq_oracle(rec):
         with warnings.catch_warnings():
             warnings.simplefilter("ignore")
             cd = (float(a.opt_func(x + e)) - float(a.opt_func(x - e))) / (2 * hs)
-        if not (abs(cd - fg[c]) <= 2e-4 * max(abs(cd), abs(fg[c])) + 1e-7 * (1 + np.abs(fg).max())):
-            bad.append(f"gradient[{c}] = {fg[c]!r} but central difference of opt_func = {cd!r}")
+            cd2 = (float(a.opt_func(x + e / 2)) - float(a.opt_func(x - e / 2))) / hs
+        rich = (4 * cd2 - cd) / 3            # Richardson step; |cd - cd2| estimates the error
+        if not (abs(rich - fg[c]) <= 1e-3 * abs(fg[c]) + 4 * abs(cd - cd2) + 1e-6 * (1 + np.abs(fg).max())):
+            bad.append(f"gradient[{c}] = {fg[c]!r} but central differences of opt_func give {rich!r}")
     return bad
 
 
@@ -557,6 +569,11 @@ def run_sequence(cfg):
                                          and np.array_equal(np.asarray(G.gp.y, dtype=float), G.y))
                 evn["mu_max"] = float(G.acquisition.mu_max)
                 evn["opt_mu_max"] = float(G.mu_max)
+                evn["state"] = {"x": np.asarray(G.x, dtype=float).reshape(len(G.y), -1).tolist(),
+                                "x_shape": list(np.asarray(G.x).shape),
+                                "y": np.asarray(G.y, dtype=float).tolist(),
+                                "yerr": None if G.y_err is None else np.asarray(G.y_err, dtype=float).tolist(),
+                                "mu_max": float(G.acquisition.mu_max)}
                 out["events"].append(evn)
         out["final"] = {"x": np.asarray(G.x, dtype=float).reshape(len(G.y), -1).tolist(),
                         "x_shape": list(np.asarray(G.x).shape),
@@ -569,11 +586,11 @@ def run_sequence(cfg):
 
 
 def all_sequences(max_len=4):
-    seqs = []
-    for n in range(1, max_len + 1):
-        for m in range(2 ** n):
-            seqs.append("".join("PA"[(m >> i) & 1] for i in range(n)))
-    return seqs
+    """The words of length max_len over {P, A}.  Every word of length <= max_len is a prefix
+    of one of them, and the checks are made after every operation, so running these covers
+    every propose/add sequence of length <= max_len."""
+    n = max_len
+    return ["".join("PA"[(m >> i) & 1] for i in range(n)) for m in range(2 ** n)]
 
 
 def sequence_configs(tier):
@@ -594,13 +611,23 @@ def sequence_configs(tier):
     return cfgs
 
 
-def add_case_text(res):
-    ini, fin = res["init"], res.get("final")
+def add_case_texts(res):
+    """one case per prefix ending in an addition"""
+    out = []
+    evs = res["events"]
+    for i, evn in enumerate(evs):
+        if evn["op"] == "A" and "state" in evn:
+            out.append(add_case_text(res, evs[:i + 1], evn["state"]))
+    return out
+
+
+def add_case_text(res, events, fin):
+    ini = res["init"]
     x0 = C.clist([C.clist([C.cq(v) for v in row]) for row in ini["x"]])
     y0 = C.clist([C.cq(v) for v in ini["y"]])
     e0 = "None" if ini["yerr"] is None else "(Some " + C.clist([C.cq(v) for v in ini["yerr"]]) + ")"
     news = []
-    for evn in res["events"]:
+    for evn in events:
         if evn["op"] == "A" and "exception" not in evn:
             ne = "None" if evn["new_err"] is None else f"(Some {C.cq(evn['new_err'])})"
             news.append(f"({C.clist([C.cq(v) for v in evn['new_x']])}, {C.cq(evn['new_y'])}, {ne})")
@@ -656,7 +683,10 @@ def run(rep: C.Report, tier: str) -> int:
     futs = [pool.submit(run_sequence, c) for c in cfgs]
 
     # ---- (a) acquisition values and gradients
+    import time as _t
+    t0 = _t.time()
     recs, goals = acquisition_points(rep, tier)
+    rep.coverage["t_acq_impl_s"] = round(_t.time() - t0, 1)
     # the definition E max(f - ymax, 0), enclosed inside Coq, on a sample of EI points
     ei_idx = [k for k, rc in enumerate(recs) if rc["acq"] == "EI" and "error" not in rc]
     step = max(1, len(ei_idx) // (8 if tier == "quick" else 40))
@@ -677,6 +707,7 @@ def run(rep: C.Report, tier: str) -> int:
     chunk = max(1, (len(ordered) + nchunks - 1) // nchunks)
     failed, broken = I.check_goals(PROP, "acq", ordered, preamble=PREAMBLE, chunk=chunk, jobs=12,
                                    timeout=600)
+    rep.coverage["t_acq_goals_s"] = round(_t.time() - t0, 1)
     rep.obligation(True, len(goals) - len(failed))
     rep.obligation(False, len(failed))
     rep.coverage["interval_goals"] = len(goals)
@@ -760,7 +791,9 @@ def run(rep: C.Report, tier: str) -> int:
                         "case": {"kind": "starts", "meta": m}}), found)
 
     # ---- (c) sequences
+    rep.coverage["t_before_seq_s"] = round(_t.time() - t0, 1)
     results = [f.result() for f in futs]
+    rep.coverage["t_seq_done_s"] = round(_t.time() - t0, 1)
     pool.shutdown()
     acases, aidx = [], []
     for i, res in enumerate(results):
@@ -777,9 +810,10 @@ def run(rep: C.Report, tier: str) -> int:
                 continue
             seen.add(key)
             rep.violation(key, what, {"case": {"kind": "sequence", "cfg": cfg}}, True)
-        if res["error"] is None and "final" in res and not any("exception" in e for e in res["events"]):
-            acases.append(add_case_text(res))
-            aidx.append(i)
+        if res["error"] is None:
+            for t in add_case_texts(res):
+                acases.append(t)
+                aidx.append(i)
     rep.coverage["sequences"] = len(results)
     rep.coverage["proposals"] = sum(1 for r_ in results for e in r_["events"] if e["op"] == "P")
     rep.coverage["additions"] = sum(1 for r_ in results for e in r_["events"] if e["op"] == "A")
@@ -836,7 +870,7 @@ def run(rep: C.Report, tier: str) -> int:
         rule="EI/UCB/MaxVariance at random query points of real fitted GpRegressors (d = 1..3), EI "
              "incumbent steered so that z covers [-8, 8] with a cluster at -3 +- {0,1e-11,1e-7,1e-4,...} "
              "plus natural incumbents; starting_positions with scripted uniforms on boxes with data "
-             "inside / on the edge / outside; all 30 propose/add words of length <= 4 x {bfgs, diffev} "
+             "inside / on the edge / outside; all 30 propose/add words of length <= 4 (run as the 16 words of length 4, checked after every operation) x {bfgs, diffev} "
              "with ndarray (1-D, 2-D), list, view, row and proposal-object arguments; distinct = "
              "distinct (kind, inputs)")
 
